@@ -15,6 +15,11 @@
 (*   f.hasnone f.nargs f.lastellipsis f.origin f.istypeddict f.hasfields   *)
 (*   f.userclass f.direct[b]  (issubclass of the object itself, unresolved)*)
 (*   f.originsubtuple  the typing origin is a strict subclass of tuple     *)
+(*   f.deferred       the NewType / alias / Final / ClassVar chain ends in  *)
+(*                    a string-valued alias (resolved later, by reference) *)
+(*   f.stdlibtbl f.builtintbl  per member other than None of a union (or   *)
+(*                    for the object itself): "T"/"F" is the NewType-      *)
+(*                    resolved class in the documented table, "?" no class *)
 (*                                                                         *)
 (* Def(p, f) is "T" / "F" / "?" (outside the asserted domain).             *)
 (***************************************************************************)
@@ -41,8 +46,12 @@ IsFixedTuple(f) == f.origin = "tuple" /\ f.nargs > 0 /\ ~f.lastellipsis
 IsNamedTuple(f) == f.isclass /\ f.plainclass /\ f.sub["tuple"] /\ f.hasfields
 IsSpecialForm(f) == f.isunion \/ f.isliteral \/ f.isfinal \/ f.isclassvar \/ f.isforwardref
 
+\* predicates that look at the outermost form only
+OuterForm == {"isuniontype", "isoptionaltype", "isliteral", "isfinal", "isclassvartype", "isnonetype", "isforwardref", "istypealiastype"}
 Def(p, f) ==
-  IF SubBase(p) # "" THEN (IF f.isclass THEN B(f.sub[SubBase(p)]) ELSE "?")
+  \* an annotation that ends in a string-valued alias resolves to nothing yet (a deferred reference): only its outer form is asserted
+  IF f.deferred /\ p \notin OuterForm THEN "?"
+  ELSE IF SubBase(p) # "" THEN (IF f.isclass THEN B(f.sub[SubBase(p)]) ELSE "?")
   ELSE IF DirectBase(p) # "" THEN (IF f.plainclass THEN B(f.direct[DirectBase(p)]) ELSE "?")
   ELSE CASE p = "issequencetype" ->
               (IF ~f.isclass THEN "?" ELSE IF f.sub["Sequence"] THEN "T" ELSE IF ~f.sub["Collection"] THEN "F" ELSE "?")
@@ -63,6 +72,13 @@ Def(p, f) ==
                ELSE IF IsSpecialForm(f) THEN "F"
                ELSE IF f.plainclass /\ f.userclass THEN "T"
                ELSE IF f.plainclass /\ f.stdlibexact THEN "F" ELSE "?")
+         \* membership in the library's documented tables of builtin / standard-library classes (after NewType resolution);
+         \* a union is a member iff every member other than None is (None itself is in both tables, wherever it is declared)
+         [] p \in {"isstdlibtype", "isbuiltintype"} ->
+              (LET ms == IF p = "isstdlibtype" THEN f.stdlibtbl ELSE f.builtintbl IN
+               IF \E i \in 1..Len(ms) : ms[i] = "?" THEN "?"
+               ELSE IF p = "isbuiltintype" /\ f.isunion THEN "?"          \* documented for classes and NewTypes only
+               ELSE B(\A i \in 1..Len(ms) : ms[i] = "T"))
          [] p = "isfrozendataclass" -> B(f.frozen)
          [] p = "istypealiastype" -> B(f.isalias)
          [] OTHER -> "?"
